@@ -24,7 +24,13 @@ def _scalar_json(value, t):
     if n == "Float":
         if isinstance(value, bool) or not isinstance(value, (int, float)):
             raise Reject("Float")
-        return float(value)
+        try:
+            f = float(value)
+        except OverflowError:
+            raise Reject("Float")         # an integer beyond the range of a double
+        if f != f or f in (float("inf"), float("-inf")):
+            raise Reject("Float")         # not a finite IEEE 754 double (3.5.2)
+        return f
     if n == "String":
         if not isinstance(value, str):
             raise Reject("String")
@@ -144,7 +150,10 @@ def coerce_literal(node, t, variables):
         if n == "Float":
             if not isinstance(node, (A.IntValue, A.FloatValue)):
                 raise Reject("Float literal")
-            return float(node.value)
+            f = float(node.value)
+            if f != f or f in (float("inf"), float("-inf")):
+                raise Reject("Float literal beyond the range of a finite double")
+            return f
         if n == "String":
             if not isinstance(node, A.StringValue):
                 raise Reject("String literal")
